@@ -1321,7 +1321,7 @@ bd5_ack!(bd5_puback_st, 0x40, spec_puback_reason, Packet::PublishAck, 7, true);
 //@ desc: v5 PUBREL body (as bd5_puback; reason codes 0x00 / 0x92)
 bd5_ack!(bd5_pubrel, 0x62, spec_pubrel_reason, Packet::PublishRelease, 7, false);
 //@ props: C02
-//@ tier: quick
+//@ tier: thorough
 //@ functions: v5 decode::decode_packet, PublishAck2::decode, v5::Codec::encodev, EncodeLtd for PublishAck2
 //@ bounds: every body of 0..=7 arbitrary bytes
 //@ unwindset: utf8_is_valid=6 spec_utf8=6 slice_eq=6 ack_props::decode=4 spec_walk_props=4 decode_variable_length_cursor=6 encode_opt_props=3 encoded_size_opt_props=3 clone=3 expect_lp=6 extend_from_slice=7
@@ -1372,7 +1372,7 @@ macro_rules! bd5_suback {
 //@ desc: v5 SUBACK body: accepted iff non-zero id, well-formed property section (0x1F once / 0x26), every reason code from spec table 3.9.3
 bd5_suback!(bd5_suback, 0x90, spec_suback_reason, Packet::SubscribeAck, 7, false);
 //@ props: C02
-//@ tier: quick
+//@ tier: thorough
 //@ functions: v5 decode::decode_packet, SubscribeAck::decode, v5::Codec::encodev, EncodeLtd for SubscribeAck
 //@ bounds: every body of 0..=6 arbitrary bytes
 //@ unwindset: utf8_is_valid=6 spec_utf8=6 slice_eq=6 ack_props::decode=4 spec_walk_props=4 decode_variable_length_cursor=6 encode_opt_props=3 encoded_size_opt_props=3 clone=3 expect_lp=6 extend_from_slice=7 SubscribeAck=6 UnsubscribeAck=6
@@ -1388,7 +1388,7 @@ bd5_suback!(bd5_suback_st, 0x90, spec_suback_reason, Packet::SubscribeAck, 6, tr
 //@ desc: v5 UNSUBACK body (as bd5_suback; reason codes from spec table 3.11.3)
 bd5_suback!(bd5_unsuback, 0xB0, spec_unsuback_reason, Packet::UnsubscribeAck, 7, false);
 //@ props: C02
-//@ tier: quick
+//@ tier: thorough
 //@ functions: v5 decode::decode_packet, UnsubscribeAck::decode, v5::Codec::encodev
 //@ bounds: every body of 0..=6 arbitrary bytes
 //@ unwindset: utf8_is_valid=6 spec_utf8=6 slice_eq=6 ack_props::decode=4 spec_walk_props=4 decode_variable_length_cursor=6 encode_opt_props=3 encoded_size_opt_props=3 clone=3 expect_lp=6 extend_from_slice=7 SubscribeAck=6 UnsubscribeAck=6
